@@ -44,6 +44,12 @@ def settle(machine):
                or "error" in a]
         if not bad:
             return machine, res, dropped
+        # a command the real code accepted and the model rejected (or vice versa) before the first unsupported event is a
+        # genuine disagreement: keep the program as it is, so that it is reported and the oracles see the real MIRs
+        first = bad[0]
+        if any("c" in ev and r.get("s") != a.get("s") and a.get("s") != "unsupported"
+               for ev, r, a in list(zip(machine.events, machine.results, res))[:first]):
+            return machine, res, dropped
         i = bad[0]
         events = copy.deepcopy(events)
         if "c" in events[i]:
